@@ -34,12 +34,18 @@ func (c11) Assumptions() []string {
 func (c11) Gen(rng *rand.Rand, tier string, i int) *sim.Scenario {
 	if i%10 >= 7 {
 		o := requestOpts{queriesMin: 1, queriesMax: 4, e2eMax: 6, bigE2E: 0.01}
+		if tier == "thorough" {
+			o.queriesMax, o.e2eMax, o.bigE2E = 6, 10, 0.05
+		}
 		sc := genRequestScenario("C11", rng, o)
 		sc.Knobs.CaptureOutgoing = chance(rng, 0.5)
 		applyWrapBases(rng, sc)
 		return sc
 	}
 	n := between(rng, 2, 8)
+	if tier == "thorough" && chance(rng, 0.2) {
+		n = between(rng, 9, 14)
+	}
 	variants := []Variant{{Entry: "icmp"}, {Entry: "icmp", V6: true}, {Entry: "udp"}, {Entry: "udp", V6: true}, {Entry: "tcp"}, {Entry: "tcp", Paris: true}, {Entry: "sack"}, {Entry: "sack", Loosen: true}}
 	if chance(rng, 0.3) {
 		// all runs of one protocol towards one target
